@@ -49,7 +49,7 @@ def unit_axis(text):
     return SV([x / mag for x in a.e]), a, mag
 
 
-def add_mat_rotations(u, ms, only=None):
+def add_mat_rotations(u, ms, only=None, axes_only=None):
     P, N, n = ms.path, ms.name, ms.n
     gh = 'impl<T>%s<T>' % N
     c = app('cos_r', leaf('angle_radians.v@'))
@@ -58,6 +58,8 @@ def add_mat_rotations(u, ms, only=None):
     axes = (2,) if n == 2 else (0, 1, 2)
     if only:
         axes = ()
+    if axes_only is not None:
+        axes = tuple(a for a in axes if a in axes_only)
     for k in axes:
         nm = 'xyz'[k]
         Rk = rot_axis_spec(n, k, c, s)
@@ -65,7 +67,7 @@ def add_mat_rotations(u, ms, only=None):
         u.take(P, gh, 'rotated_' + nm, C(ensures=eq_all(ms, 'res', Rk @ S)))
         So = SM.of(ms, 'old(self)')
         u.take(P, gh, 'rotate_' + nm, C(ret=None, ensures=eq_all(ms, 'final(self)', Rk @ So)))
-    if n >= 3:
+    if n >= 3 and axes_only is None:
         ax, raw, mag = unit_axis('axis.into_spec()')
         R = rodrigues_spec(n, c, s, ax)
         req = ['V::obeys_into_spec()']
@@ -113,6 +115,8 @@ def qeq(res, q):
 
 
 def add_quat_core(u):
+    import veccore
+    veccore.add_spatial_basic(u, V3)
     P = 'quaternion::repr_c'
     gh = 'impl<T>Quaternion<T>'
     u.take(P, gh, 'into_scalar_and_vec3', C(ensures=['res.0 == self.w', 'res.1.x == self.x', 'res.1.y == self.y',
